@@ -328,6 +328,10 @@ func c16Exec(sc c16Scenario) (string, map[string]bool) {
 				if got, ok := per["cbgo_lag_current"][m.vb]; !ok || got != wantLag[m.vb] {
 					s.fail("C16", "cbgo_lag_current{vb %d} = %v (present=%v), want max(0, high - tracked) = %v", m.vb, got, ok, wantLag[m.vb])
 				}
+			} else if got, ok := per["cbgo_lag_current"][m.vb]; ok && got != wantLag[m.vb] {
+				// the sequence-number query of this scrape failed: the lag is exposed as an invalid sample (or not at all) - a
+				// valid sample is a statement about the server's high seqno NOW like any other
+				s.fail("C16", "cbgo_lag_current{vb %d} = %v although the sequence-number query of this scrape failed; the server's high seqno is %v above the tracked position", m.vb, got, wantLag[m.vb])
 			}
 			var muts, imuts, dels, idels, exps, iexps float64
 			for _, ev := range m.all {
